@@ -59,11 +59,11 @@ M("c03-guard-outside-loop", "C03", "C03.ACT", (TH, """                for action
                         if ctx.can_trigger():
                             ctx.process()
 """))
-M("c03-overwrite-same-location", "C03", "C03.MERGE", (GRPC, """        if location_id in all_triggers:
-            all_triggers[location_id].merge_actions(trigger.actions)
-        else:
-            all_triggers[location_id] = trigger
-""", """        all_triggers[location_id] = trigger
+M("c03-overwrite-same-location", "C03", "C03.MERGE", (GRPC, """            if location_id in all_triggers:
+                all_triggers[location_id].merge_actions(trigger.actions)
+            else:
+                all_triggers[location_id] = trigger
+""", """            all_triggers[location_id] = trigger
 """))
 M("c03-swapped-args", "C03", "C03.ORIG", (TH, "if trigger.at_location(event, file, line, function, frame):", "if trigger.at_location(event, file, line, file, frame):"))
 R("c03-line-nested-ifs", "C03", (TRG, """        if event == "line" and file == self.path and line == self.line:
